@@ -139,6 +139,11 @@ def tree():
     put('BASE/root/index.html', OUT_MARK)             # an ancestor's name in another letter case
     put('BASE/root/secret.txt', OUT_MARK)
     put('Base/ROOT/secret.txt', OUT_MARK)
+    # trees OUTSIDE the root whose absolute path embeds the root's absolute path (backup / rsync -R / chroot copies)
+    put('backup' + t + '/base/root/secret.txt', OUT_MARK)
+    put('backup' + t + '/base/root/index.html', OUT_MARK)
+    put('base/mirror' + t + '/base/root/sub/page.txt', OUT_MARK)
+    put('base/root2' + t + '/base/root/secret.txt', OUT_MARK)
     os.makedirs(os.path.join(t, 'base/work/d'), exist_ok=True)
     os.makedirs(os.path.join(t, 'base/root/emptydir'), exist_ok=True)
     _T = t
@@ -213,6 +218,11 @@ def corpus():
         mk(A, '{T}', 'index.html', deny=['isfile']),
         mk(A, '{T}', 'index.html', deny=['exists']),
         mk(A, '{T}', '../root2/secret.txt', method='HEAD', rng='bytes=0-1'),
+        # a path that merely CONTAINS the root's absolute path is outside (seeded change C16/10)
+        mk(A, '{T}', '../../backup{T}/base/root/secret.txt'), mk(A, '{T}', '../../backup{T}/base/root/index.html'),
+        mk(A + '/', '{T}', '../mirror{T}/base/root/sub/page.txt'), mk('root', '{T}/base', '../root2{T}/base/root/secret.txt'),
+        mk(A, '{T}', '../../backup{T}/base/root/nothing.txt'), mk(A, '{T}', '../../backup{T}/base/root/'),
+        mk(A + '/sub', '{T}', '../../../backup{T}/base/root/sub/../secret.txt'),
         # a root that is a regular file has no inside: its siblings must not be served (seeded change C16/8)
         mk(A + '/index.html', '{T}', 'sub/page.txt'), mk(A + '/index.html', '{T}', 'a b.txt'), mk(A + '/index.html/', '{T}', 'sub/page.txt'),
         mk('root/index.html', '{T}/base', 'arch.tar.gz'), mk('index.html', '{T}/base/root', 'sub/deep/x.txt'),
@@ -243,7 +253,10 @@ ESCAPES = [['..', 'root2', 'secret.txt'], ['..', 'root2', 'index.html'], ['..', 
            ['..', 'root'], ['..', 'root2'], ['sub', '..'], ['sub', 'deep', '..', '..', '..', 'decoy.txt'],
            ['..', 'Root', 'secret.txt'], ['..', 'Root', 'index.html'], ['..', 'ROOT', 'sub', 'page.txt'],
            ['..', '..', 'BASE', 'root', 'index.html'], ['..', '..', 'BASE', 'root', 'secret.txt'],
-           ['..', '..', 'Base', 'ROOT', 'secret.txt'], ['sub', '..', '..', 'Root', 'secret.txt']]
+           ['..', '..', 'Base', 'ROOT', 'secret.txt'], ['sub', '..', '..', 'Root', 'secret.txt'],
+           ['..', '..', 'backup{T}', 'base', 'root', 'secret.txt'], ['..', '..', 'backup{T}', 'base', 'root', 'index.html'],
+           ['..', 'mirror{T}', 'base', 'root', 'sub', 'page.txt'], ['..', 'root2{T}', 'base', 'root', 'secret.txt'],
+           ['sub', '..', '..', '..', 'backup{T}', 'base', 'root', 'secret.txt']]
 
 
 def mutate(rng, segs):
@@ -321,9 +334,6 @@ def thorough():
 
 
 SERVE = (200, 206, 304, 416)
-MSG = {'Access denied.': 'denied', 'File does not exist.': '404',
-       'You do not have permission to access this file.': 'perm'}
-
 
 class _PathProxy:
     def __init__(self, log, deny):
@@ -433,7 +443,16 @@ def run_impl(case):
         # the code no longer normalises root and target with two abspath calls: the tie to the model is broken
         # (reported as a disagreement); the oracle still judges what was opened
         abss = [(None, '?'), (None, '?')]
-    gate = 'serve' if status in SERVE else MSG.get(body if isinstance(body, str) else '', 'other-%s' % status)
+    # 403 before any file-system question = refused by the prefix test; 403 after a failed access() = not readable
+    # (the texts of the error pages are not part of the property)
+    if status in SERVE:
+        gate = 'serve'
+    elif status == 404:
+        gate = '404'
+    elif status == 403:
+        gate = 'perm' if any(k == 'access' and not r for k, _, r in log) else 'denied'
+    else:
+        gate = 'other-%s' % status
     return dict(status=status, gate=gate, root_norm=cps(abss[0][1] + os.sep), target_norm=cps(abss[1][1]),
                 opened=[cps(p) for p in opened], asked=asked,
                 served_from=_served_from(content))
